@@ -709,14 +709,19 @@ class DAGRunConcurrentManager(DAGRunManagerLike):
             )
 
             if isinstance(result, Recurrent):
-                self._create_task(
-                    name=f'rec-{node_id}',
-                    coro=self._run_recurrent_subgraph(
-                        node_result=result,
-                        node_id=node_id,
-                        dag=dag,
-                    ),
-                )
+                start_node_id = self.dag.graph.nodes[node_id].get(NodeField.start_node)
+
+                # The subgraph that is being restarted already takes the new result itself. A task created for it now
+                # could start after that one has finished and would restart the subgraph all over again.
+                if not self._node_storage.exists_active_rec_subgraph(start_node_id, node_id):
+                    self._create_task(
+                        name=f'rec-{node_id}',
+                        coro=self._run_recurrent_subgraph(
+                            node_result=result,
+                            node_id=node_id,
+                            dag=dag,
+                        ),
+                    )
 
                 # We shouldn't unlock the node's descendants if we have to perform recurrent subgraph.
                 # It has to be this way because the node, which has `Recurrent` result,
